@@ -18,7 +18,7 @@ R03.4 every mapped C table is reachable from a decoder entry point, and every
       the RFC prints it only in prose).
 """
 import json, os
-from .. import sx, cfg as cfgm, rfc, decide
+from .. import sx, cfg as cfgm, rfc, decide, roles
 from ..facts import flatten
 from ..pts import PointsTo
 from ..compdb import AnalysisBroken, VERIF
@@ -492,8 +492,8 @@ def r03_6(rep, prog):
     of the decoder's channel count - a bare sample offset would cross-fade or
     place stereo audio at half the intended time"""
     n = 0
-    for fname in ('opus_decode_frame', 'opus_decode_native'):
-        f = prog.fn(fname)
+    for f in roles.frame_decoders(prog) + [prog.fn('opus_decode_native')]:
+        fname = f.name
         rep.functions.add(fname)
         pcmvars = {('param', i) for i, q in enumerate(f.params) if q['type'] in PCM_TYPES and q['name'].startswith('pcm')}
         for l in f.locals.values():
